@@ -214,7 +214,7 @@ func (fr *frame) visit(instr ssa.Instruction) cont {
 		}
 		fr.env[instr] = r.unop(instr, fr.get(instr.X))
 	case *ssa.BinOp:
-		fr.env[instr] = r.binop(instr.Op, instr.X.Type(), fr.get(instr.X), fr.get(instr.Y))
+		fr.env[instr] = r.binopT(instr.Op, instr.X.Type(), instr.Y.Type(), fr.get(instr.X), fr.get(instr.Y))
 	case *ssa.Call:
 		fn, args := fr.prepareCall(&instr.Call)
 		fr.env[instr] = r.call(fr, fn, args)
@@ -262,6 +262,10 @@ func (fr *frame) visit(instr ssa.Instruction) cont {
 				r.gwritten = map[*ssa.Global]bool{}
 			}
 			r.gwritten[g] = true
+		}
+		if se, ok := fr.get(instr.Addr).(symElem); ok {
+			r.storeSymElem(se, instr.Val.Type(), fr.get(instr.Val))
+			break
 		}
 		store(fr.get(instr.Addr).(Ptr), fr.get(instr.Val))
 	case *ssa.If:
@@ -686,6 +690,10 @@ func intModeOp(op token.Token, x, y IntV) Value {
 }
 
 func (r *Run) binop(op token.Token, t types.Type, x, y Value) Value {
+	return r.binopT(op, t, t, x, y)
+}
+
+func (r *Run) binopT(op token.Token, t, yt types.Type, x, y Value) Value {
 	switch op {
 	case token.EQL:
 		return r.equal(t, x, y)
@@ -726,7 +734,26 @@ func (r *Run) binop(op token.Token, t types.Type, x, y Value) Value {
 		w, signed := intWidth(t)
 		if op == token.SHL || op == token.SHR {
 			if y.S != nil {
-				panic(unsupported("symbolic shift count"))
+				// symbolic shift count: SMT shifts give 0 (or sign fill) for counts >= width, as Go does
+				yw, _ := intWidth(yt)
+				cnt := y.S
+				switch {
+				case yw < w:
+					cnt = mk(fmt.Sprintf("(_ zero_extend %d)", w-yw), bv(w), cnt)
+				case yw > w:
+					// a count that does not fit the operand width shifts everything out: saturate
+					hi := mk(fmt.Sprintf("(_ extract %d %d)", yw-1, w), bv(yw-w), cnt)
+					lo := mk(fmt.Sprintf("(_ extract %d 0)", w-1), bv(w), cnt)
+					cnt = mk("ite", bv(w), mkEq(hi, mkBV(0, yw-w)), lo, mkBV(uint64(w), w))
+				}
+				o := "bvshl"
+				if op == token.SHR {
+					o = "bvlshr"
+					if signed {
+						o = "bvashr"
+					}
+				}
+				return IntV{S: mk(o, bv(w), x.term(w), cnt)}
 			}
 			if x.S == nil {
 				var c uint64
@@ -899,7 +926,17 @@ func (r *Run) conv(dst, src types.Type, x Value) Value {
 			if x.S == nil && x.C < 0x80 {
 				return strLit(string(rune(x.C)))
 			}
-			panic(unsupported("string(rune) of symbolic/non-ASCII"))
+			if x.S != nil && x.S.Sort.Kind == 'V' {
+				sw, _ := intWidth(src)
+				if r.branch(mk("bvult", sortBool, x.S, mkBV(0x80, sw))) {
+					b := x.S
+					if sw > 8 {
+						b = mk("(_ extract 7 0)", bv(8), x.S)
+					}
+					return StrV{Segs: []Seg{{Byte: b}}}
+				}
+			}
+			panic(unsupported("string(rune) of a non-ASCII rune"))
 		}
 	case StrV:
 		if _, ok := ud.(*types.Basic); ok {
@@ -1166,6 +1203,30 @@ func (r *Run) callBuiltin(fr *frame, name string, args []Value) Value {
 			}
 			return IntV{C: uint64(n)}
 		}
+	case "min", "max":
+		acc, ok := args[0].(IntV)
+		if !ok {
+			break
+		}
+		for _, a := range args[1:] {
+			b := a.(IntV)
+			if acc.S == nil && b.S == nil {
+				less := int64(acc.C) < int64(b.C)
+				if (name == "min") != less {
+					acc = b
+				}
+				continue
+			}
+			c := r.binop(token.LSS, types.Typ[types.Int], acc, b).(BoolV)
+			less := c.C
+			if c.S != nil {
+				less = r.branch(c.S)
+			}
+			if (name == "min") != less {
+				acc = b
+			}
+		}
+		return acc
 	case "SliceData", "StringData":
 		return args[0]
 	case "String":
@@ -1216,8 +1277,48 @@ type symElem struct {
 	w   int
 }
 
+// storeSymElem: arr[idx] = v for a symbolic idx into a small integer array: every element becomes
+// ite(idx == i, v, old). Out-of-range indexes panic as in Go.
+func (r *Run) storeSymElem(se symElem, t types.Type, v Value) {
+	ew, _ := intWidth(t)
+	nv, ok := v.(IntV)
+	if !ok || len(se.arr) > 64 {
+		panic(unsupported("store through a symbolic index (element type %v, %d elements)", t, len(se.arr)))
+	}
+	if r.branch(mk("bvuge", sortBool, se.idx, mkBV(uint64(len(se.arr)), se.w))) {
+		panic(goPanic{strLit("index out of range (symbolic)")})
+	}
+	for i := range se.arr {
+		old, ok := se.arr[i].(IntV)
+		if !ok {
+			panic(unsupported("store through a symbolic index into a non-integer array"))
+		}
+		se.arr[i] = IntV{S: mk("ite", bv(ew), mkEq(se.idx, mkBV(uint64(i), se.w)), nv.term(ew), old.term(ew))}
+	}
+}
+
 func (r *Run) loadSymElem(se symElem, t types.Type) Value {
 	ew, _ := intWidth(t)
+	symbolicElems := false
+	for _, e := range se.arr {
+		if iv, ok := e.(IntV); ok && iv.S != nil {
+			symbolicElems = true
+		}
+	}
+	if symbolicElems {
+		// elements themselves symbolic (after a symbolic-index store): plain ite chain
+		if len(se.arr) > 64 {
+			panic(unsupported("symbolic index into a large symbolic array"))
+		}
+		if r.branch(mk("bvuge", sortBool, se.idx, mkBV(uint64(len(se.arr)), se.w))) {
+			panic(goPanic{strLit("index out of range (symbolic)")})
+		}
+		acc := se.arr[len(se.arr)-1].(IntV).term(ew)
+		for i := len(se.arr) - 2; i >= 0; i-- {
+			acc = mk("ite", bv(ew), mkEq(se.idx, mkBV(uint64(i), se.w)), se.arr[i].(IntV).term(ew), acc)
+		}
+		return IntV{S: acc}
+	}
 	groups := map[uint64]*Term{}
 	var order []uint64
 	for i, e := range se.arr {
